@@ -85,6 +85,14 @@ def run_chunker_check(prop, tier):
             traces.append(tr)
             procs.append(subprocess.Popen(["timeout", "2400", VH, "chunker-l1", "--mode", "pairs", "--count", str(npairs // 8), "--seed", str(seed() * 8 + i),
                                            "--maxlen", "40000", "--out", tr], stdout=subprocess.PIPE, stderr=subprocess.PIPE))
+    if prop == "C10":
+        # streams of more than 2^32 bytes (a byte counter that wraps, a position kept in 32 bits): ~20 s each, all in parallel
+        huge = [("rollsum", 48, 13)] if tier == "quick" else [("rollsum", 48, 13), ("rollsum", 100, 12), ("rollsum", 3, 14), ("buzhash", 48, 13), ("buzhash", 20, 12)]
+        for (a, w, b) in huge:
+            tr = os.path.join(workdir, "hugepair_%s_%d.ndjson" % (a, w))
+            traces.append(tr)
+            procs.append(subprocess.Popen(["timeout", "2400", VH, "chunker-l1", "--mode", "hugepair", "--alg", a, "--w", str(w), "--bits", str(b), "--seed", str(seed()),
+                                           "--out", tr], stdout=subprocess.PIPE, stderr=subprocess.PIPE))
     for p in procs:
         o, e = p.communicate()
         if p.returncode != 0:
@@ -103,7 +111,7 @@ def run_chunker_check(prop, tier):
         grp = json.loads(lines[0]) if '"scenario"' in lines[0] else {}
         sig = "%s|%s" % (v["rule"].split(":")[0], grp.get("alg", ev.get("alg")))
         if len(json.dumps(ev)) > 20000:
-            ev = {k: ev[k] for k in ev if k not in ("chunks", "ba", "bb", "bounds")}
+            ev = {k: ev[k] for k in ev if k not in ("chunks", "ba", "bb", "bounds", "tail_a", "tail_b", "head_a", "head_b")}
         out.violation(sig, "%s (%s w=%s bits=%s min=%s max=%s data=%s)" % (v["rule"], grp.get("alg", ev.get("alg")), grp.get("w", ev.get("w")), grp.get("bits", ev.get("bits")), ev.get("min"), ev.get("max"), str(ev.get("data"))[:80]),
                       {"kind": "chunker_l1", "group": grp, "event": ev, "verdict": {k: v[k] for k in ("rule", "scenario", "line")}, "trace_file": os.path.basename(v["trace"])})
     samples = []
